@@ -1,4 +1,5 @@
 """C02 — connection codes are single-use, short-lived and die with the booking"""
+from tiecommon import TIE_LOCKS
 import vlib
 from vlib import hx
 
@@ -18,6 +19,8 @@ THEOREMS = [(f"TtlCode.{n}", P) for n in
            [(f"TieTtlCode.{n}", "Relay.Tie.TtlCode") for n in
             ["submit_tie", "exchange_tie", "exchange_unknown", "clean_tie", "deleteByBooking_tie", "count_tie", "good_after", "coverage"]]
 BIDS = ["b1", "b2", "b3", ""]
+THEOREMS = THEOREMS + TIE_LOCKS
+
 
 
 class TtlMode(vlib.Mode):
